@@ -279,3 +279,71 @@ def c10(case, o, res, prefix="C10"):
     if s.flag == s.EXIT_SUCCESS:
         if not math.isfinite(float(s.obj)):
             res.fail(prefix + ".finite_success", "success flag with objective %r" % (s.obj,))
+
+
+# ------------------------------------------------------------------------------------------------ every-iteration forms
+def iteration_hook(case, check_c03=True, check_c04=True):
+    """Returns a hook(o, model) called once per main-loop iteration (from the wrapper of the model's fitting method).
+    It looks at the live model read-only and appends (clause, detail) to o.iter_fail - at most one per clause."""
+    from dfols.util import remove_scaling
+    state = {"ncalls": 0, "best": float("inf"), "nonfinite": False, "seen": set()}
+    det = deterministic(case) and not case.get("nsamples")
+
+    def fail(o, clause, detail):
+        if clause not in state["seen"]:
+            state["seen"].add(clause)
+            o.iter_fail.append((clause, detail))
+
+    def hook(o, mdl):
+        # running minimum of the recomputed objective over the calls made so far
+        while state["ncalls"] < len(o.calls):
+            x, r = o.calls[state["ncalls"]]
+            state["ncalls"] += 1
+            if r is None:
+                state["nonfinite"] = True
+                continue
+            with np.errstate(all="ignore"):
+                v = objective_of(case, x, r)
+            if math.isfinite(v):
+                state["best"] = min(state["best"], v)
+            else:
+                state["nonfinite"] = True
+        if check_c04 and det and not state["nonfinite"] and state["ncalls"] > 0:
+            cur = float(mdl.objopt())
+            if mdl.objsave is not None and mdl.objsave < cur:
+                cur = float(mdl.objsave)
+            if not (cur <= state["best"] * (1 + 4 * EPS) + 1e-300):
+                fail(o, "C04.iter_best", "iteration %d: best value held by the model (incumbent/saved) is %r but an evaluated point had %r"
+                     % (o.nfits, cur, state["best"]))
+        if check_c03 and len(o.evlog) == len(o.calls) and not state["nonfinite"]:
+            groups = {}
+            for i, (_, p) in enumerate(o.evlog):
+                groups.setdefault(p, []).append(i)
+            mags = [1.0] + [float(np.max(np.abs(c[0]))) for c in o.calls]
+            tol = (8 + 2 * o.nshifts) * EPS * max(mags)
+            if case.get("scaling"):
+                lo, up = user_bounds(case)
+                tol *= 1.0 + float(np.max(up - lo))
+            for k in range(mdl.npt()):
+                en = int(mdl.eval_num[k])
+                if en not in groups:
+                    fail(o, "C03.iter_label", "iteration %d: interpolation point %d carries evaluation number %d, which does not exist (nx=%d)"
+                         % (o.nfits, k, en, len(groups)))
+                    continue
+                idx = groups[en]
+                xk = remove_scaling(mdl.xpt(k, abs_coordinates=True), mdl.scaling_changes)
+                if float(np.max(np.abs(xk - o.calls[idx[0]][0]))) > tol:
+                    fail(o, "C03.iter_label", "iteration %d: interpolation point %d is labelled evaluation point %d but x differs by %r"
+                         % (o.nfits, k, en, float(np.max(np.abs(xk - o.calls[idx[0]][0])))))
+                    continue
+                ns = int(mdl.nsamples[k])
+                if ns > len(idx) or ns < 1:
+                    fail(o, "C03.iter_samples", "iteration %d: point %d claims %d samples, %d calls were made there" % (o.nfits, k, ns, len(idx)))
+                    continue
+                rs = np.array([o.calls[i][1] for i in idx[:ns]], dtype=float)
+                rm = np.mean(rs, axis=0)
+                rmax = float(np.max(np.abs(rs))) if rs.size else 0.0
+                if float(np.max(np.abs(mdl.fval_v[k, :] - rm))) > 8 * EPS * max(rmax, 1e-300) * ns:
+                    fail(o, "C03.iter_resid", "iteration %d: stored residual of point %d (evaluation point %d) is not the mean of its %d samples"
+                         % (o.nfits, k, en, ns))
+    return hook
